@@ -15,13 +15,13 @@ type Options struct {
 }
 
 type G struct {
-	R      *rand.Rand
-	O      Options
-	budget int
-	nhd    int
-	inWord int // depth of word nesting (heredocs only at depth <= 1)
+	R       *rand.Rand
+	O       Options
+	budget  int
+	nhd     int
+	inWord  int  // depth of word nesting (heredocs only at depth <= 1)
 	sawCase bool // a case clause with items was generated: go.sh's parenthesis counter is unreliable afterwards
-	paren  int // parenthesis depth as go.sh's lexer counts it: "((" is the arithmetic command only at depth 0
+	paren   int  // parenthesis depth as go.sh's lexer counts it: "((" is the arithmetic command only at depth 0
 	// coverage of (parent production, slot, child production)
 	Pairs map[string]int
 }
